@@ -108,7 +108,7 @@ class MAUPITILinear(nn.Linear, MAUPITIModule):
         with torch.no_grad():
             if not self.last_layer:
                 self._zero_point = (self.add_bias + (self.clip_inf * 2**self.shift) -
-                                    self.clip_inf * self.scale *
+                                    self.in_offset * self.scale *
                                     torch.sum(self.weight, dim=1
                                               ).view(1, self.out_features))
             else:
@@ -162,6 +162,12 @@ class MAUPITILinear(nn.Linear, MAUPITIModule):
     @property
     def device(self):
         return next(self.parameters()).device
+
+    @property
+    def in_offset(self):
+        # Offset of the (offset-signed) input activations: depends on the
+        # input precision, which may differ from the output one
+        return torch.tensor(-2 ** (self.in_quantizer.precision - 1), device=self.device)
 
     @property
     def clip_inf(self):
